@@ -263,6 +263,24 @@ fn main() {
         run_ctor(&mut out, if k % 2 == 0 { 0x0014 } else { 0x0015 }, sbuf.as_bytes());
         nprobe += 1;
     }
+    // and exhaustively: every string of at most 4 (thorough: 6) symbols of the trimming alphabet — a plain character, the
+    // backslash, the five removable characters and one non-ASCII character — through Nonce::new (REALM: every other one);
+    // this enumerates every way a run of backslashes can meet the trimmed end (the repair of D8)
+    let small: [&str; 8] = ["a", "\\", "\"", " ", "\t", "\r", "\n", "\u{e9}"];
+    let maxlen = if args.thorough { 6 } else { 4 };
+    let mut k = 0u64;
+    for len in 1..=maxlen {
+        let total = 8u64.pow(len);
+        for code in 0..total {
+            k += 1;
+            if k % args.shards != args.shard { continue }
+            let mut sbuf = String::new();
+            let mut c = code;
+            for _ in 0..len { sbuf.push_str(small[(c % 8) as usize]); c /= 8 }
+            run_ctor(&mut out, if k % 2 == 0 { 0x0014 } else { 0x0015 }, sbuf.as_bytes());
+            nprobe += 1;
+        }
+    }
     out.note(&format!("suite=codecrt cases={} ignbits_records={} ctor_probes={} kinds_used={:?}", mine, nign, nprobe, kinds_used));
     out.finish();
 }
